@@ -281,24 +281,25 @@ func (timeoutErr) Timeout() bool   { return true }
 func (timeoutErr) Temporary() bool { return true }
 
 type simConn struct {
-	c        *vh.Ctx
-	now      time.Duration
-	t1, t2   time.Duration
-	peerT2   time.Duration // the peer's T2, never equal to ours: no two timers expire at the same instant
-	rbuf     []byte
-	deadline time.Duration
-	dlen     time.Duration // duration of the armed deadline (T1-class reads are not model timeouts)
-	peer     *simPeer
-	realSide string // "A" (master) or "B" (slave)
-	peerSide string
-	log      []string
-	holdPeer bool // keep the peer's already written ENQ in flight until the real end has written
-	pFault   [3]int
-	peerStartAt time.Duration // virtual time at which an idle peer with a queued message starts; <0 never
-	tail     []byte        // the rest of a transmission whose length character was lowered: arrives after a pause < T1
-	tailAt   time.Duration
-	polling  bool          // the harness's idle-loop poll: its deadline expiries are idle ticks, not model timeouts
-	steps    int
+	c                *vh.Ctx
+	now              time.Duration
+	t1, t2           time.Duration
+	peerT2           time.Duration // the peer's T2, never equal to ours: no two timers expire at the same instant
+	rbuf             []byte
+	deadline         time.Duration
+	dlen             time.Duration // duration of the armed deadline (T1-class reads are not model timeouts)
+	peer             *simPeer
+	realSide         string // "A" (master) or "B" (slave)
+	peerSide         string
+	log              []string
+	holdPeer         bool // keep the peer's already written ENQ in flight until the real end has written
+	pFault           [3]int
+	peerStartAt      time.Duration // virtual time at which an idle peer with a queued message starts; <0 never
+	tail             []byte        // the rest of a transmission whose length character was lowered: arrives after a pause < T1
+	tailAt           time.Duration
+	garblePeerBlocks bool // every block transmission of the peer arrives damaged (characters pass intact)
+	polling          bool // the harness's idle-loop poll: its deadline expiries are idle ticks, not model timeouts
+	steps            int
 }
 
 func (s *simConn) clock() time.Time { return time.Unix(1_700_000_000, 0).Add(s.now) }
@@ -369,6 +370,9 @@ func (s *simConn) flushOne() {
 	d := s.peer.outq[0]
 	s.peer.outq = s.peer.outq[1:]
 	out, f := s.through(d)
+	if s.garblePeerBlocks && len(d) > 1 {
+		out, f = s.mutilate(d), "garble"
+	}
 	s.log = append(s.log, "L "+s.peerSide+" "+f)
 	s.rbuf = append(s.rbuf, out...)
 	// Fault class "length character lowered + the tail delayed by less than T1" (a block whose
@@ -514,6 +518,13 @@ func unit(c *vh.Ctx) {
 		limit := r.Intn(4)
 		peerLimit := r.Intn(4)
 		op := []string{"send", "send", "send-contend", "recv"}[r.Intn(4)]
+		// A scripted master that contends again and again with a DAMAGED block, more often than the
+		// host's retry limit allows: every failed yield counts against the host's budget, so the host
+		// gives up after exactly limit+1 line requests.
+		yieldFail := i%12 == 0
+		if yieldFail {
+			realMaster, op, peerLimit = false, "send-contend", 12
+		}
 		s := &simConn{c: c, t1: 500*time.Millisecond + 7, t2: 10 * time.Second, peerStartAt: -1}
 		s.peerT2 = s.t2 + time.Duration(r.Intn(9)-4)*time.Millisecond + 500*time.Microsecond
 		switch r.Intn(20) {
@@ -526,6 +537,9 @@ func unit(c *vh.Ctx) {
 			s.pFault = [3]int{40, 15, 0}
 		default: // mostly garbled: the mutilated-block classes
 			s.pFault = [3]int{5, 40, 0}
+		}
+		if yieldFail {
+			s.pFault, s.garblePeerBlocks = [3]int{0, 0, 0}, true
 		}
 		s.realSide, s.peerSide = "B", "A"
 		if realMaster {
@@ -553,7 +567,7 @@ func unit(c *vh.Ctx) {
 			if op == "send-contend" {
 				peerTodo = []int{peerTok}
 				s.peer.todo = []int{peerTok}
-				if r.Intn(2) == 0 { // the peer has already written its ENQ: simultaneous request
+				if yieldFail || r.Intn(2) == 0 { // the peer has already written its ENQ: simultaneous request
 					s.log = append(s.log, "S "+s.peerSide)
 					s.peer.start()
 					s.logPeerWrites(0)
@@ -630,6 +644,13 @@ func unit(c *vh.Ctx) {
 		for _, e := range s.log {
 			if e == "W "+s.realSide+" ENQ" {
 				attempts++
+			}
+		}
+		if yieldFail {
+			c.Count(fmt.Sprintf("U/yield-fail/limit=%d", limit))
+			if attempts != limit+1 || result != "failed" || len(delivered) != 0 || m.BlockSendFailedCount() != 1 {
+				c.Fail(fmt.Sprintf("a master contending with damaged blocks: the host requested the line %d times with retry limit %d (want exactly %d), result %s, deliveries %d, BlockSendFailedCount %d",
+					attempts, limit, limit+1, result, len(delivered), m.BlockSendFailedCount()), lineS)
 			}
 		}
 		if op != "recv" {
